@@ -10,11 +10,12 @@ open Adaptix.Py
 
 /-! ### the located-error invariant -/
 
-/-- the input recorded on an error of class `cls` found at sub-value `x`: nothing, or `x`
-    itself, or — only for the arity errors of the constant-length tuple loader, which
-    work on `tuple(data)` — the tuple of the elements of `x` -/
+/-- the input recorded on an error of class `cls` found at sub-value `x`: nothing (only
+    groups and unions), or `x` itself, or — only for the arity errors of the
+    constant-length tuple loader, which work on `tuple(data)` — the tuple of the elements
+    of `x` -/
 def TrailInputOk (x : Val) (cls : String) : Option Val → Prop
-  | none => True
+  | none => cls = "AggregateLoadError" ∨ cls = "UnionLoadError"
   | some y => y = x ∨ ((cls = "ExtraItemsLoadError" ∨ cls = "NoRequiredItemsLoadError") ∧
                         ∃ xs, x.iterElems = some xs ∧ y = Val.tuple xs)
 
@@ -37,11 +38,11 @@ theorem trail_exact_leafD (cls : String) (d : Val) (det : List String) :
 
 theorem trail_exact_agg {d : Val} {errs : List LErr} (h : ∀ c ∈ errs, TrailExact d c) :
     TrailExact d (LErr.agg errs) :=
-  .mk (x := d) rfl trivial h
+  .mk (x := d) rfl (Or.inl rfl) h
 
 theorem trail_exact_union {d : Val} {errs : List LErr} (h : ∀ c ∈ errs, TrailExact d c) :
     TrailExact d (LErr.union errs) :=
-  .mk (x := d) rfl trivial h
+  .mk (x := d) rfl (Or.inr rfl) h
 
 theorem trail_exact_push {d y : Val} {el : TrailEl} {e : LErr}
     (hs : trailStep d el = some y) (h : TrailExact y e) : TrailExact d (e.push el) := by
